@@ -210,7 +210,7 @@ func buildAssets(c *config) []byte {
 				tloc[lc][p.item] = map[string][]string{p.prop: arr}
 				continue
 			}
-			if p.name == "text" {
+			if p.name == "text" || p.name == "say_text" {
 				arr2 := make([]string, len(arr))
 				for i, t := range arr {
 					arr2[i] = ee(t)
@@ -273,7 +273,7 @@ func buildAssets(c *config) []byte {
 			},
 		},
 	}
-	say := map[string]any{"uuid": sayUUID, "type": "say_msg", "text": "say"}
+	say := map[string]any{"uuid": sayUUID, "type": "say_msg", "text": ee("say")}
 	if c.BaseAudio != "" {
 		say["audio_url"] = c.BaseAudio
 	}
@@ -795,7 +795,14 @@ func oracle(c *config, o *observed, res *hx.Result) {
 	}
 	// say_msg: text and audio URL by the chain, each on its own; the locale names the language of the text
 	st, stl := first("say_text", "say")
-	sa, _ := first("say_audio", c.BaseAudio)
+	if c.EvalEmpty { // the text of the message evaluates to ""
+		st = ""
+	}
+	sa, sal := first("say_audio", c.BaseAudio)
+	if st == "" {
+		// a message without text is in the language of its attachment (the audio URL)
+		stl = sal
+	}
 	switch {
 	case st == "" && sa == "":
 		if o.Say != nil {
@@ -808,7 +815,7 @@ func oracle(c *config, o *observed, res *hx.Result) {
 			fail("say-msg-choice", fmt.Sprintf("say_msg text %q audio %q, statement prescribes %q / %q", o.Say.Text, o.Say.Audio, st, sa))
 		}
 		if o.Say.Lang != stl {
-			fail("say-msg-locale", fmt.Sprintf("say_msg locale %q, its text is in %q", langCodes[o.Say.Lang], langCodes[stl]))
+			fail("say-msg-locale", fmt.Sprintf("say_msg locale %q, statement prescribes %q (the language of its text, or of its audio URL when it has no text)", langCodes[o.Say.Lang], langCodes[stl]))
 		}
 	}
 	// play_audio: a text-less message; the locale names the language of its attachment
